@@ -15,6 +15,11 @@ def ensure_universe():
     outs = [os.path.join(SPEC, "Lib_decl.tla"), os.path.join(HARNESS, "data", "decl.json")]
     if not all(os.path.exists(o) for o in outs) or min(os.path.getmtime(o) for o in outs) < os.path.getmtime(src):
         sh([sys.executable, src])
+    # extra WIT worlds for the instantiate-and-encode corpus (C01 / C03)
+    src = os.path.join(ROOT, "lib", "universe_wit.py")
+    out = os.path.join(HARNESS, "data", "wit_extra.json")
+    if not os.path.exists(out) or os.path.getmtime(out) < os.path.getmtime(src):
+        sh([sys.executable, src])
 
 
 def artefacts(tier):
